@@ -7,6 +7,7 @@ package smfspace
 import (
 	"bytes"
 	"fmt"
+	"io"
 
 	"gitlab.com/gomidi/midi/v2"
 	"gitlab.com/gomidi/midi/v2/internal/verifh/refsmf"
@@ -75,6 +76,7 @@ const (
 	OpClose                  // cur.Close(d)
 	OpSMFAdd                 // s.Add(cur); cur = new empty track
 	OpSMFAddKeep             // s.Add(cur); the same track variable keeps being used
+	OpWrite                  // s.WriteTo(discard): a write in the middle of the history (closes open tracks in place)
 )
 
 type Op struct {
@@ -95,6 +97,8 @@ func (o Op) String(al []Msg) string {
 		return "SMF.Add;newtrack"
 	case OpSMFAddKeep:
 		return "SMF.Add;keeptrack"
+	case OpWrite:
+		return "SMF.WriteTo(discard)"
 	}
 	return "?"
 }
@@ -104,10 +108,18 @@ type Cfg struct {
 	Ctor int // 0 New, 1 NewSMF1, 2 NewSMF2
 	NoRS bool
 	TF   smf.TimeFormat
+	// FromRead > 0: the history does not start from a constructor but from the
+	// value obtained by reading a file of that many tracks (format = Ctor, or 1
+	// when Ctor is 0 and there are two tracks; division = TF)
+	FromRead int
 }
 
 func (c Cfg) String() string {
-	return fmt.Sprintf("ctor=%d noRS=%v tf=%s", c.Ctor, c.NoRS, c.TF.String())
+	s := fmt.Sprintf("ctor=%d noRS=%v tf=%s", c.Ctor, c.NoRS, c.TF.String())
+	if c.FromRead > 0 {
+		s += fmt.Sprintf(" from-read(%d tracks)", c.FromRead)
+	}
+	return s
 }
 
 // Division returns the division word the format prescribes for a time format.
@@ -127,6 +139,8 @@ type Model struct {
 	Tracks [][]refsmf.Event // as added to the file
 	Cur    []refsmf.Event   // track under construction
 	Events int              // total events added through Add (bound bookkeeping)
+	Writes int              // number of OpWrite so far (bound bookkeeping)
+	TracksAtLastWrite int
 }
 
 func closed(t []refsmf.Event) bool {
@@ -144,6 +158,24 @@ type Inst struct {
 
 func NewInst(cfg Cfg, al []Msg) *Inst {
 	in := &Inst{Cfg: cfg, Al: al}
+	if cfg.FromRead > 0 {
+		f := &refsmf.File{Format: uint16(cfg.Ctor), NTrks: uint16(cfg.FromRead), Division: Division(cfg.TF)}
+		if f.Format == 0 && cfg.FromRead > 1 {
+			f.Format = 1
+		}
+		for i := 0; i < cfg.FromRead; i++ {
+			f.Tracks = append(f.Tracks, []refsmf.Event{{Delta: 0, Msg: []byte{0x95, byte(0x30 + i), 0x40}}, {Delta: 1, Msg: refsmf.EOT}})
+		}
+		s, err := smf.ReadFrom(bytes.NewReader(refsmf.Encode(f)))
+		if err != nil {
+			panic("smfspace: cannot read the seed file: " + err.Error())
+		}
+		s.NoRunningStatus = cfg.NoRS
+		in.S = s
+		in.M.Format = f.Format
+		in.M.Tracks = f.Tracks
+		return in
+	}
 	switch cfg.Ctor {
 	case 0:
 		in.S = smf.New()
@@ -196,6 +228,15 @@ func (in *Inst) Apply(o Op) {
 		in.Cur.Close(o.D)
 		if !closed(in.M.Cur) {
 			in.M.Cur = append(in.M.Cur, refsmf.Event{Delta: o.D, Msg: refsmf.EOT})
+		}
+	case OpWrite:
+		in.S.WriteTo(io.Discard) // fails without tracks; otherwise closes open tracks in place
+		in.M.Writes++
+		in.M.TracksAtLastWrite = len(in.M.Tracks)
+		for i, t := range in.M.Tracks {
+			if !closed(t) {
+				in.M.Tracks[i] = append(append([]refsmf.Event(nil), t...), refsmf.Event{Delta: 0, Msg: refsmf.EOT})
+			}
 		}
 	case OpSMFAdd, OpSMFAddKeep:
 		in.S.Add(in.Cur) // returns an error for an open track but adds it anyway
@@ -250,7 +291,12 @@ func FromTrack(t smf.Track) []refsmf.Event {
 // two must agree (checked by the caller) for merging histories to be sound.
 func (in *Inst) Key(withCap bool) string {
 	b := make([]byte, 0, 256)
-	b = append(b, 'F', byte(in.M.Format), '|')
+	b = append(b, 'F', byte(in.M.Format), 'W', byte(in.M.Writes), byte(len(in.M.Tracks)), '|')
+	if in.M.Writes > 0 {
+		// the library may remember things from an earlier write (private fields):
+		// distinguish by how many tracks the file had at the last write
+		b = append(b, 'w', byte(in.M.TracksAtLastWrite))
+	}
 	for _, t := range in.M.Tracks {
 		b = writeTrack(b, t)
 		b = append(b, '|')
